@@ -48,6 +48,14 @@ RAZOR_METHODS = [  # the eight shipped methods with sharedPeptides = "razor" (fi
     "maxquant_perc_best_picked",
     "razor_picked",
 ]
+PIPE_METHODS = [  # run through picked_group_fdr.get_protein_group_results with collect_… wrapped
+    "picked_protein_group_mq_input",  # bestPEP, rescued subset grouping (two passes), discard, picked group
+    "picked_protein_group_mq_input",
+    "maxquant",  # multPEP, subset grouping, razor, classic
+    "maxquant_mq_best_picked",  # bestPEP, subset grouping, razor, picked group
+    "razor_picked_mq_input",  # bestPEP, no grouping, razor
+    "savitski_mq_mult",  # multPEP, no grouping, discard
+]
 PERC_METHODS = {"maxquant_perc_best", "maxquant_perc_best_picked", "razor_picked", "picked_protein_group"}
 
 
@@ -120,9 +128,9 @@ class _HashlibProxy:
 
 class P(Prop):
     id = "C05"
-    quick_cases = 1500
-    thorough_cases = 40000
-    chunk = 250
+    quick_cases = 2000
+    thorough_cases = 200000
+    chunk = 500
     rule = (
         "groupings = partitions of a subset of a 6-8 name universe (prefixes none/REV__/rev_/CON__/OBSOLETE__/"
         "OBSOLETE__REV__; rarely an empty group or a protein listed by two groups) x peptide dicts of 0-7 peptides "
@@ -184,6 +192,8 @@ class P(Prop):
         return pil
 
     def gen_case(self, rng, tier):
+        if rng.random() < 0.12:
+            return self._gen_pipe(rng)
         universe = self._universe(rng)
         unknown = ["X1", "REV__X2", "X3"]
         members = universe[:]
@@ -217,16 +227,31 @@ class P(Prop):
             for _ in range(n):
                 ev.append([rat(rng.choice(PEP_GRID)), "PEP" + rng.choice("ABC"), rng.sample(universe, rng.randint(1, 2))])
             extra_ev.append(ev)
+        suppress = rng.random() < 0.5
+        known = {p for g in groups for p in g}
+        if not suppress and any(all(q not in known for q in ps) for _, _, ps in pil) and rng.random() < 0.5:
+            suppress = True  # keep the share of rejected calls moderate
         return {
             "groups": groups,
             "pil": pil,
             "mode": mode,
             "counts_pil": counts_pil,
-            "suppress": rng.random() < 0.5,
+            "suppress": suppress,
             "score": score,
             "div": rat(rng.choice(DIV_GRID)),
             "extra_ev": extra_ev,
         }
+
+    def _gen_pipe(self, rng):
+        """a peptide list for the whole pipeline: groupings then come from the real grouping / rescue code"""
+        n = rng.randint(3, 7)
+        targets = ["P%d" % i for i in range(1, n + 1)]
+        universe = targets + ["REV__" + t for t in rng.sample(targets, rng.randint(1, n))]
+        if rng.random() < 0.3:
+            universe.append("CON__P9")
+        singles = [[u] for u in universe]
+        pil = [x for x in self._pil(rng, singles, universe, universe, rng.randint(2, 9)) if x[2]]
+        return {"pipe": rng.choice(PIPE_METHODS), "pil": pil, "npseed": rng.randint(0, 10**6)}
 
     def exhaustive_cases(self, tier):
         # every way to list <= 2 proteins (with repetition, incl. an unknown one) for one peptide against a fixed
@@ -257,6 +282,8 @@ class P(Prop):
     def run_impl(self, case):
         if "cli" in case:
             return self._run_cli(case)
+        if "pipe" in case:
+            return self._run_pipe(case)
         import numpy as np
         from picked_group_fdr import fdr, helpers
         from picked_group_fdr import scoring_strategy as ss
@@ -352,10 +379,71 @@ class P(Prop):
         out["_rec"] = rec
         return out
 
+    def _run_pipe(self, case):
+        """the whole pipeline on a peptide list, every call of collect_peptide_scores_per_protein recorded"""
+        import numpy as np
+        from picked_group_fdr import fdr, methods
+        from picked_group_fdr import picked_group_fdr as pgf
+        from picked_group_fdr import scoring_strategy as ss
+
+        cfg = methods.parse_method_toml(case["pipe"], False)
+        st = cfg.score_type
+        pil = {p: (fl(s), list(ps)) for p, s, ps in case["pil"]}
+        calls, md5, seen = [], {}, {}
+        orig = st.collect_peptide_scores_per_protein
+
+        def wrapped(pg, pil_, cutoff, suppress_missing_protein_warning=False):
+            rec = {
+                "groups": [list(g) for g in pg.protein_groups],
+                "pil": [[p, rat(float(sc)), list(ps)] for p, (sc, ps) in pil_.items()],
+                "suppress": bool(suppress_missing_protein_warning),
+            }
+            seen.clear()
+            try:
+                ev = orig(pg, pil_, cutoff, suppress_missing_protein_warning=suppress_missing_protein_warning)
+            except Exception as e:
+                rec["collect"] = {"err": "unknown_protein" if "Could not find any of the proteins" in str(e) else type(e).__name__}
+                calls.append(rec)
+                raise
+            rec["collect"] = {"evidence": [enc_ev(e) for e in ev], "peps": [rat(x) for x in seen.get("peps", [])]}
+            calls.append(rec)
+            return ev
+
+        old_hashlib, old_cut = ss.hashlib, fdr.calc_post_err_prob_cutoff
+
+        def cut(peps, level):
+            seen["peps"] = [float(x) for x in peps]
+            return old_cut(peps, level)
+
+        st.collect_peptide_scores_per_protein = wrapped
+        ss.hashlib = _HashlibProxy(md5)
+        fdr.calc_post_err_prob_cutoff = cut
+        np.random.seed(case["npseed"])
+        end = "table"
+        try:
+            res = pgf.get_protein_group_results(pil, method_config=cfg)
+            end = "rows=%d" % len(res)
+        except ValueError as e:
+            if "not enough values to unpack" not in str(e):
+                raise
+            end = "no_ranked_groups"
+        except IndexError as e:
+            # multPEP with no group holding evidence: optimize_hyperparameters indexes an empty array
+            if "too many indices for array" not in str(e) or any(g for g in calls[-1]["collect"].get("evidence", [[1]])):
+                raise
+            end = "no_ranked_groups"
+        except Exception as e:
+            if not (calls and "err" in calls[-1]["collect"]):
+                raise
+            end = calls[-1]["collect"]["err"]
+        finally:
+            ss.hashlib, fdr.calc_post_err_prob_cutoff = old_hashlib, old_cut
+        return {"calls": calls, "razor": bool(st.use_razor), "_rec": {"md5": md5, "end": end}}
+
     # ------------------------------------------------------------------ the model
     def _keys(self, case, impl_out):
         names = set()
-        for src in (case["pil"], case["counts_pil"] or []):
+        for src in (case["pil"], case.get("counts_pil") or []):
             for _, _, ps in src:
                 names.update(ps)
         rec = (impl_out.get("_rec") or {}).get("md5", {}) if isinstance(impl_out, dict) else {}
@@ -371,18 +459,26 @@ class P(Prop):
     def model_request(self, case, impl_out):
         if "cli" in case:
             return None
+        if "pipe" in case:
+            if not isinstance(impl_out, dict) or "calls" not in impl_out:
+                return None
+            rz = {"pil": case["pil"], "keys": self._keys(case, impl_out)} if impl_out["razor"] else None
+            return [
+                {"op": "c05_collect", "groups": c["groups"], "pil": c["pil"], "razor": rz, "suppress": c["suppress"]}
+                for c in impl_out["calls"]
+            ] or None
         rz = self._razor_arg(case, impl_out)
-        reqs = [{"op": "collect", "groups": case["groups"], "pil": case["pil"], "razor": rz, "suppress": case["suppress"]}]
+        reqs = [{"op": "c05_collect", "groups": case["groups"], "pil": case["pil"], "razor": rz, "suppress": case["suppress"]}]
         for p, s, ps in case["pil"]:
-            reqs.append({"op": "idxs", "groups": case["groups"], "proteins": ps})
+            reqs.append({"op": "c05_idxs", "groups": case["groups"], "proteins": ps})
         if rz is not None:
             for p, s, ps in case["pil"]:
-                reqs.append({"op": "razor_pick", "razor": rz, "proteins": ps})
+                reqs.append({"op": "c05_razor_pick", "razor": rz, "proteins": ps})
         evs = []
         if isinstance(impl_out, dict) and "evidence" in impl_out.get("collect", {}):
             evs = list(impl_out["collect"]["evidence"])
         for e in evs + list(case["extra_ev"]):
-            reqs.append({"op": "score", "kind": case["score"], "evidence": e})
+            reqs.append({"op": "c05_score", "kind": case["score"], "evidence": e})
         return reqs
 
     def _score_view(self, case, resp):
@@ -400,6 +496,8 @@ class P(Prop):
         for r in resp:
             if "proto_err" in r:
                 return {"proto_err": r["proto_err"]}
+        if "pipe" in case:
+            return [self._collect_view(r) for r in resp]
         n = len(case["pil"])
         out = {}
         c = resp[0]
@@ -436,6 +534,15 @@ class P(Prop):
         return out
 
     @staticmethod
+    def _collect_view(c):
+        if "err" in c:
+            return {"err": c["err"]}
+        return {
+            "evidence": [[[rat(unrat(s)), p, ps] for s, p, ps in g] for g in c["evidence"]],
+            "peps": [rat(unrat(x)) for x in c["peps"]],
+        }
+
+    @staticmethod
     def _is_contaminant(g):
         return all("CON__" in x for x in g)
 
@@ -444,6 +551,8 @@ class P(Prop):
         return all("REV__" in x for x in g) or all("rev_" in x for x in g)
 
     def impl_view(self, case, impl_out):
+        if "pipe" in case and isinstance(impl_out, dict) and "calls" in impl_out:
+            return [c["collect"] for c in impl_out["calls"]]
         if isinstance(impl_out, dict) and "_rec" in impl_out:
             return {k: v for k, v in impl_out.items() if k != "_rec"}
         return impl_out
@@ -458,71 +567,29 @@ class P(Prop):
                     impl_out.get("last", ""),
                 )
             return None
+        if "pipe" in case:
+            if not isinstance(impl_out, dict) or "calls" not in impl_out:
+                return "no result: %r" % (impl_out,)
+            for k, c in enumerate(impl_out["calls"]):
+                why, _ = self._join_oracle(
+                    c["groups"], c["pil"], impl_out["razor"], case["pil"], c["suppress"], c["collect"]
+                )
+                if why:
+                    return "call %d of collect_peptide_scores_per_protein inside method %s (suppress=%s): %s" % (
+                        k,
+                        case["pipe"],
+                        c["suppress"],
+                        why,
+                    )
+            return None
         if not isinstance(impl_out, dict) or "collect" not in impl_out:
             return "no result: %r" % (impl_out,)
         groups = case["groups"]
-        where = {}
-        for i, g in enumerate(groups):
-            for p in g:
-                where[p] = i
-        razor = case["mode"] == "razor"
-        if razor:
-            cp = case["counts_pil"] if case["counts_pil"] is not None else case["pil"]
-            cnt, best = {}, {}
-            for pep, s, ps in cp:
-                for q in set(ps):
-                    cnt[q] = cnt.get(q, 0) + 1
-                    best[q] = min(best.get(q, Fraction(2)), unrat(s))
-        exp_ev = [[] for _ in groups]
-        exp_peps = []
-        exp_err = None
-        for pep, s, ps in case["pil"]:
-            if razor:
-                if not ps:
-                    exp_err = "razor_no_proteins"
-                    break
-                top = max(
-                    ps,
-                    key=lambda q: (cnt.get(q, 0), -best.get(q, Fraction(1)), hashlib.md5(q.encode("utf-8")).hexdigest(), q),
-                )
-                ps = [top]
-            if all(q not in where for q in ps):  # none of its proteins is in a group
-                if not case["suppress"]:
-                    exp_err = "unknown_protein"
-                    break
-                continue  # "is ignored otherwise"
-            tgt = {where.get(q, -1) for q in ps}
-            if len(tgt) == 1:  # all proteins in one single group
-                (i,) = tgt
-                exp_ev[i].append([rat(unrat(s)), pep, ps])
-                if not self._is_decoy(ps):
-                    exp_peps.append(rat(unrat(s)))
         got = impl_out["collect"]
-        if exp_err is not None:
-            if got.get("err") != exp_err:
-                return "expected the call to be rejected (%s), got %r" % (exp_err, got if "err" in got else "a result")
-            return None
-        if "err" in got:
-            return "unexpected rejection %r" % (got["err"],)
-        for i, g in enumerate(groups):
-            if got["evidence"][i] != exp_ev[i]:
-                extra = [e for e in got["evidence"][i] if e not in exp_ev[i]]
-                lost = [e for e in exp_ev[i] if e not in got["evidence"][i]]
-                return "group %d %r: evidence differs from 'all proteins of the peptide lie in this one group': unexpected %r, missing %r" % (
-                    i,
-                    g,
-                    extra,
-                    lost,
-                )
-        if got["peps"] != exp_peps:
-            return "PEP list for the cutoff %r differs from the PEPs of the non-decoy evidence peptides %r" % (
-                [float(unrat(x)) for x in got["peps"]],
-                [float(unrat(x)) for x in exp_peps],
-            )
-        if razor:
-            for e in (x for g in got["evidence"] for x in g):
-                if len(e[2]) != 1:
-                    return "razor evidence lists %d proteins" % len(e[2])
+        cp = case["counts_pil"] if case["counts_pil"] is not None else case["pil"]
+        why, done = self._join_oracle(groups, case["pil"], case["mode"] == "razor", cp, case["suppress"], got)
+        if why or done:
+            return why
         # scores
         for evj, sc in list(zip(got["evidence"], impl_out.get("scores", []))) + list(
             zip(case["extra_ev"], impl_out.get("extra_scores", []))
@@ -538,6 +605,76 @@ class P(Prop):
         if rk != want:
             return "ranked groups %r, expected %r (a group is ranked iff it has evidence)" % (rk, want)
         return None
+
+    def _join_oracle(self, groups, pil, razor, counts_pil, suppress, got):
+        """the join between `protein -> position` and `peptide -> proteins`, stated directly.
+        Returns (reason or None, True if the call was (rightly) rejected)."""
+        where = {}
+        for i, g in enumerate(groups):
+            for p in g:
+                where[p] = i
+        if razor:
+            cnt, best = {}, {}
+            for pep, s, ps in counts_pil:
+                for q in set(ps):
+                    cnt[q] = cnt.get(q, 0) + 1
+                    best[q] = min(best.get(q, Fraction(2)), unrat(s))
+        exp_ev = [[] for _ in groups]
+        exp_peps = []
+        exp_err = None
+        for pep, s, ps in pil:
+            if razor:
+                if not ps:
+                    exp_err = "razor_no_proteins"
+                    break
+                top = max(
+                    ps,
+                    key=lambda q: (cnt.get(q, 0), -best.get(q, Fraction(1)), hashlib.md5(q.encode("utf-8")).hexdigest(), q),
+                )
+                ps = [top]
+            if all(q not in where for q in ps):  # none of its proteins is in a group
+                if not suppress:
+                    exp_err = "unknown_protein"
+                    break
+                continue  # "is ignored otherwise"
+            tgt = {where.get(q, -1) for q in ps}
+            if len(tgt) == 1:  # all proteins in one single group
+                (i,) = tgt
+                exp_ev[i].append([rat(unrat(s)), pep, ps])
+                if not self._is_decoy(ps):
+                    exp_peps.append(rat(unrat(s)))
+        if exp_err is not None:
+            if got.get("err") != exp_err:
+                return "expected the call to be rejected (%s), got %r" % (exp_err, got if "err" in got else "a result"), True
+            return None, True
+        if "err" in got:
+            return "unexpected rejection %r" % (got["err"],), True
+        for i, g in enumerate(groups):
+            if got["evidence"][i] != exp_ev[i]:
+                extra = [e for e in got["evidence"][i] if e not in exp_ev[i]]
+                lost = [e for e in exp_ev[i] if e not in got["evidence"][i]]
+                if not extra and not lost:
+                    return "group %d %r: evidence is not in peptide-list order (or repeats a peptide): %r" % (
+                        i,
+                        g,
+                        [e[1] for e in got["evidence"][i]],
+                    ), False
+                return "group %d %r: evidence differs from 'all proteins of the peptide lie in this one group': unexpected %r, missing %r" % (
+                    i,
+                    g,
+                    extra,
+                    lost,
+                ), False
+        if got["peps"] != exp_peps:
+            return "PEP list for the cutoff %r differs from the PEPs of the non-decoy evidence peptides %r" % (
+                [float(unrat(x)) for x in got["peps"]],
+                [float(unrat(x)) for x in exp_peps],
+            ), False
+        if razor:
+            for e in (x for g in got["evidence"] for x in g):
+                if len(e[2]) != 1:
+                    return "razor evidence lists %d proteins" % len(e[2]), False
+        return None, False
 
     def _score_oracle(self, case, evj, sc):
         got = fl(sc["score"])
@@ -571,6 +708,9 @@ class P(Prop):
     def nontrivial(self, case, impl_out):
         if "cli" in case or not isinstance(impl_out, dict):
             return False
+        if "pipe" in case:
+            cs = [c["collect"] for c in impl_out.get("calls", []) if "evidence" in c["collect"]]
+            return any(len(c["evidence"]) >= 2 and 0 < sum(len(g) for g in c["evidence"]) < len(case["pil"]) for c in cs)
         c = impl_out.get("collect", {})
         if "evidence" not in c:
             return len(case["pil"]) >= 2 and len(case["groups"]) >= 2
@@ -580,6 +720,19 @@ class P(Prop):
     def features(self, case, impl_out):
         if "cli" in case:
             return ["cli"]
+        if "pipe" in case:
+            f = ["pipe", "pipe:" + case["pipe"]]
+            if isinstance(impl_out, dict) and "calls" in impl_out:
+                cs = impl_out["calls"]
+                f.append("pipe:calls=%d" % len(cs))
+                f.append("pipe:end=" + ("table" if impl_out["_rec"]["end"].startswith("rows") else impl_out["_rec"]["end"]))
+                if len(cs) == 2 and cs[0]["groups"] != cs[1]["groups"]:
+                    f.append("pipe:rescue-regrouped")
+                if any(len(g) > 1 for c in cs for g in c["groups"]):
+                    f.append("pipe:multi-protein-group")
+                if any(any(x.startswith("OBSOLETE__") for x in g) for c in cs for g in c["groups"]):
+                    f.append("pipe:obsolete-placeholder")
+            return f
         f = ["mode=" + case["mode"], "score=" + case["score"], "suppress=%s" % case["suppress"]]
         f.append("groups=%d" % len(case["groups"]))
         f.append("peptides=%s" % (len(case["pil"]) if len(case["pil"]) < 6 else "6+"))
@@ -620,6 +773,15 @@ class P(Prop):
     def shrink(self, case):
         if "cli" in case:
             return
+        if "pipe" in case:
+            pil = case["pil"]
+            for i in range(len(pil)):
+                yield {**case, "pil": pil[:i] + pil[i + 1 :]}
+            for i, (p, s, ps) in enumerate(pil):
+                for k in range(len(ps)):
+                    if len(ps) > 1:
+                        yield {**case, "pil": pil[:i] + [[p, s, ps[:k] + ps[k + 1 :]]] + pil[i + 1 :]}
+            return
         base = dict(case)
         if case["extra_ev"]:
             yield {**base, "extra_ev": []}
@@ -633,6 +795,9 @@ class P(Prop):
             yield {**base, "pil": pil[:i] + pil[i + 1 :]}
         if case["counts_pil"] is not None:
             yield {**base, "counts_pil": None}
+            cp = case["counts_pil"]
+            for i in range(len(cp)):
+                yield {**base, "counts_pil": cp[:i] + cp[i + 1 :]}
         if case["mode"] == "razor":
             yield {**base, "mode": "discard", "counts_pil": None}
         if case["score"] == "multPEP":
@@ -643,7 +808,8 @@ class P(Prop):
                 yield {**base, "groups": gs[:i] + gs[i + 1 :]}
         for i, g in enumerate(gs):
             for k in range(len(g)):
-                yield {**base, "groups": gs[:i] + [g[:k] + g[k + 1 :]] + gs[i + 1 :]}
+                if len(g) > 1:  # keep groups non-empty: an empty group is a case of its own
+                    yield {**base, "groups": gs[:i] + [g[:k] + g[k + 1 :]] + gs[i + 1 :]}
         for i, (p, s, ps) in enumerate(pil):
             for k in range(len(ps)):
                 yield {**base, "pil": pil[:i] + [[p, s, ps[:k] + ps[k + 1 :]]] + pil[i + 1 :]}
@@ -712,7 +878,8 @@ class P(Prop):
         if not info["neglog_strictly_antitone_on_grid"]:
             fails.append({"case": {"grid": grid}, "why": "-log10(q + 5e-324) is not strictly decreasing on the PEP grid", "kind": "assumption"})
         # 2. razor methods through the real command line (the premature razor filter of parsers/psm.py)
-        methods = ["maxquant"] if ctx["tier"] == "quick" else RAZOR_METHODS
+        # (corpus/C05/01-… runs `maxquant` first on every check; here another razor method, all eight when thorough)
+        methods = ["razor_picked_mq_input"] if ctx["tier"] == "quick" else RAZOR_METHODS
         control = ["picked_protein_group_mq_input"] if ctx["tier"] == "quick" else ["picked_protein_group_mq_input", "savitski_mq_mult", "picked_protein_group"]
         info["cli"] = {}
         for m in methods + control:
